@@ -238,6 +238,10 @@ func (g *Governance) Plan(c *Ctx) []hist.TxSpec {
 					if age == 4 {
 						out = append(out, g.vote(c, p, genVals[0], governance.OPIN_POSITIVE))
 					}
+					if age == 5 {
+						// the funding deadline has not passed yet, a vote has been cast: funding is over all the same
+						out = append(out, g.fund(c, p, us[5%len(us)], "3", "fund a proposal that is being voted on, at its funding deadline (must fail)"))
+					}
 					out = append(out, g.lateVoter(c, p)...)
 					// an outsider asks for the expiry one block before the deadline, in the block whose height
 					// is the deadline, and later: only after the deadline has passed may it succeed
